@@ -1,6 +1,70 @@
-(* Corr/BedCorr.v — correspondence entry points. *)
+(* Corr/BedCorr.v — correspondence entry points for package formats/bed:
+   decode a case value, run the model, encode the observable exactly as
+   harness/bed.go encodes the implementation's. *)
 From Coq Require Import String.
 From Bio Require Import Base.
 From Bio.Model Require Import Bed.
 
-Definition corr_bed : list (string * (val -> val)) := [].
+(* a record: [N chrom start end name score strand thickStart thickEnd [r g b]
+              blockCount [sizes] [starts]] *)
+Definition v_bed (b : bed) : val :=
+  let '(r, g, bl) := b_rgb b in
+  VL [VI (b_n b); VB (b_chrom b); VI (b_start b); VI (b_end b); VB (b_name b);
+      VI (b_score b); VB (b_strand b); VI (b_thick_start b); VI (b_thick_end b);
+      VL [VI (Z.of_N r); VI (Z.of_N g); VI (Z.of_N bl)];
+      VI (b_block_count b); VL (map VI (b_block_sizes b)); VL (map VI (b_block_starts b))].
+
+Definition as_bed (v : val) : option bed :=
+  match v with
+  | VL [VI n; VB chrom; VI cs; VI ce; VB name; VI sc; VB strand; VI ts; VI te;
+        VL [VI r; VI g; VI bl]; VI bc; sizes; starts] =>
+    match as_int_list sizes, as_int_list starts with
+    | Some sz, Some st =>
+      Some {| b_n := n; b_chrom := chrom; b_start := cs; b_end := ce; b_name := name;
+              b_score := sc; b_strand := strand; b_thick_start := ts; b_thick_end := te;
+              b_rgb := (Z.to_N r, Z.to_N g, Z.to_N bl);
+              b_block_count := bc; b_block_sizes := sz; b_block_starts := st |}
+    | _, _ => None
+    end
+  | _ => None
+  end.
+
+(* bed_write: record -> [i0 [[chunks] bytes]] | [i1] *)
+Definition c_bed_write (v : val) : val :=
+  match as_bed v with
+  | Some b => v_outcome (fun cs => VL [VL (map VB cs); VB (concat cs)]) (write_calls b)
+  | None => v_bad
+  end.
+
+(* bed_decode: [bytes term] -> items *)
+Definition c_bed_decode (v : val) : val :=
+  match v with
+  | VL [VB s; t] =>
+    match as_term t with
+    | Some t' => v_items v_bed (decode s t')
+    | None => v_bad
+    end
+  | _ => v_bad
+  end.
+
+(* bed_file: [records] -> [i0 items] | [i1]: write all, read the text back *)
+Definition c_bed_file (v : val) : val :=
+  match v with
+  | VL l =>
+    match all_some (map as_bed l) with
+    | Some bs => v_outcome (fun s => v_items v_bed (decode s TEOF)) (write_file bs)
+    | None => v_bad
+    end
+  | _ => v_bad
+  end.
+
+(* bed_parseuint: token -> [i0 value] | [i1]   (strconv.ParseUint(s, 0, 8)) *)
+Definition c_bed_parseuint (v : val) : val :=
+  match v with
+  | VB s => match parse_uint8 s with Some n => v_ok (VI (Z.of_N n)) | None => v_err end
+  | _ => v_bad
+  end.
+
+Definition corr_bed : list (string * (val -> val)) :=
+  [ ("bed_write"%string, c_bed_write); ("bed_file"%string, c_bed_file); ("bed_decode"%string, c_bed_decode);
+    ("bed_parseuint"%string, c_bed_parseuint) ].
